@@ -534,3 +534,10 @@ add('C05.other_params', 'C05', (MMU, "    quantized_vars = uniform_quantize_tens
     'C05.R8', 'data quantized with the configured symmetry but annotated symmetric=True')
 add('C05.wrong_buffer', 'C05', (QTS, "      transformation_input.buffers[tensor.buffer].data = _pack_data(", "      transformation_input.buffers[transformation_input.tensor_id].data = _pack_data("), 'C05.R4', 'bytes written to the buffer whose index equals the tensor id')
 add('C05.pack_other_bits', 'C05', (QTS, "          transformation_input.quant_params.num_bits,\n          np.frombuffer(", "          8,\n          np.frombuffer("), 'C05.R4', 'packing decided with a constant width')
+add('C14.shallow_load_inplace_fill', 'C14', [(CAL, "    self._model_qsvs = copy.deepcopy(model_qsvs)", "    self._model_qsvs = dict(model_qsvs)"),
+    (CAL, "      if tensor_name not in self._model_qsvs:\n        self._model_qsvs[tensor_name] = qsv\n      else:", "      if not self._model_qsvs.setdefault(tensor_name, {}):\n        self._model_qsvs[tensor_name].update(qsv)\n      else:")],
+    'C14.R1', 'shallow copy on load + in-place fill of empty placeholders: the previous result is written (two cooperating sites; seeded b3-C14, caught blind)')
+add('C09.shallow_load_inplace_fill', 'C09', [(CAL, "    self._model_qsvs = copy.deepcopy(model_qsvs)", "    self._model_qsvs = dict(model_qsvs)"),
+    (CAL, "      if tensor_name not in self._model_qsvs:\n        self._model_qsvs[tensor_name] = qsv\n      else:", "      if not self._model_qsvs.setdefault(tensor_name, {}):\n        self._model_qsvs[tensor_name].update(qsv)\n      else:")],
+    'C09.R1', 'same two-site change seen from C09 (previous result modified)')
+add('C14.twin_shallow_load', 'C14', (CAL, "    self._model_qsvs = copy.deepcopy(model_qsvs)", "    self._model_qsvs = dict(model_qsvs)"), (), 'a shallow copy on load is enough as long as entries are replaced, never updated in place', kind='twin')
